@@ -278,6 +278,8 @@ def check_envelope_membership(ctx, prog, ep, root, rule="c11.scope"):
 def run(ctx):
     prog = ctx.prog
     ep = prog.method("energy::props::EnergyProps", "convert::From", "from")
+    from ..loops import check_no_early_exit
+    check_no_early_exit(ctx, "c11.loop", prog, ep, "the reference area, volumes and envelope sets")
     root = Scope(prog, ep)
     gl = None
     for b, i, s in ep.body.statements():
